@@ -211,6 +211,11 @@ impl QueryPlan {
     }
 
     pub fn limit(&self) -> Option<usize> {
+        // For aggregate queries LIMIT caps the number of groups once the partial results are
+        // merged; it must not cut short the row scan that feeds the aggregation
+        if self.aggregate_plan.is_some() {
+            return None;
+        }
         if let Command::Query { limit, .. } = &self.command {
             limit.map(|v| v as usize)
         } else {
